@@ -15,6 +15,8 @@ type RuleCase struct {
 	Card  string
 	Label string // rule=...,bound=...
 	Rules string
+	// Number: the field carries int64_encoding NUMBER
+	Number bool
 }
 
 var intKinds = []string{"int32", "int64", "uint32", "uint64", "sint32", "sint64", "fixed32", "fixed64", "sfixed32", "sfixed64"}
@@ -77,6 +79,9 @@ func RuleSpecs(thorough bool) ([]*spec.Spec, map[string][]RuleCase) {
 				f.Opt()
 			}
 			f.R(cs[i].Rules)
+			if cs[i].Number {
+				f.I64(spec.EncNumber)
+			}
 			msg.Fields = append(msg.Fields, f)
 		}
 		f := &spec.File{Messages: []*spec.Message{msg, spec.M("Out", spec.F("ok", "bool"))},
@@ -92,6 +97,19 @@ func RuleSpecs(thorough bool) ([]*spec.Spec, map[string][]RuleCase) {
 		}
 		cs = append(cs, RuleCase{Kind: k, Label: "rule=required", Rules: "required:true"})
 		mk("rules_"+k, k, cs)
+	}
+	// the 64-bit kinds again with int64_encoding NUMBER: the field is published as an integer and its literals as numbers
+	for _, k := range []string{"int64", "uint64", "sint64", "fixed64", "sfixed64"} {
+		var cs []RuleCase
+		for _, rc := range numericRuleConfigs(k, thorough) {
+			cs = append(cs, RuleCase{Kind: k, Label: rc[0], Rules: rc[1], Number: true})
+		}
+		if k == "int64" || k == "sint64" || k == "sfixed64" {
+			cs = append(cs, RuleCase{Kind: k, Label: "rule=in,bound=extremes", Rules: k + ":{in:[-9007199254740993,9223372036854775807,-9223372036854775808]}", Number: true})
+		} else {
+			cs = append(cs, RuleCase{Kind: k, Label: "rule=in,bound=extremes", Rules: k + ":{in:[18446744073709551615,9007199254740993]}", Number: true})
+		}
+		mk("rules_"+k+"_number", k+"_number", cs)
 	}
 	{
 		var cs []RuleCase
